@@ -151,32 +151,43 @@ def touches_group_branch(deleted):
 
 
 def truncate_random(recs, rng):
-    from .. import sources
+    """Delete atom records / whole residues at a given rate; every other record (TER, MODEL,
+    ENDMDL) stays where it is, so the result is a true subset of the input."""
     mode = rng.choice(("atoms", "residues", "mixed", "sidechain-tips", "backbone-atoms"))
     rate = rng.choice((0.01, 0.03, 0.1, 0.25, 0.5, 0.75, 0.9))
     out, deleted = [], []
-    rl = sources.residue_list(recs)
-    kill_res = set()
+    # residues = runs of consecutive atom records with one identity (per model)
+    runs = []
+    last = None
+    for idx, r in enumerate(recs):
+        if r.raw is not None:
+            last = None
+            continue
+        key = (r.tag, r.chain, r.resnum, r.icode, r.resn)
+        if key != last:
+            runs.append([])
+            last = key
+        runs[-1].append(idx)
+    kill = set()
     if mode in ("residues", "mixed"):
-        for i in range(len(rl)):
+        for run in runs:
             if rng.random() < rate:
-                kill_res.add(i)
-    for i, res in enumerate(rl):
-        if res.ter_before and out:
-            from .. import pdbio
-            out.append(pdbio.raw("TER"))
-        for a in res.atoms:
-            dele = i in kill_res
-            if not dele and mode in ("atoms", "mixed") and rng.random() < rate:
-                dele = True
-            if not dele and mode == "sidechain-tips" and a.aname() not in ("N", "CA", "C", "O", "CB") and rng.random() < rate:
-                dele = True
-            if not dele and mode == "backbone-atoms" and a.aname() in ("N", "CA", "C", "O", "OXT") and rng.random() < rate:
-                dele = True
-            if dele:
-                deleted.append((a.resn, a.aname(), a.tag))
-            else:
-                out.append(a)
+                kill.update(run)
+    for idx, a in enumerate(recs):
+        if a.raw is not None:
+            out.append(a)
+            continue
+        dele = idx in kill
+        if not dele and mode in ("atoms", "mixed") and rng.random() < rate:
+            dele = True
+        if not dele and mode == "sidechain-tips" and a.aname() not in ("N", "CA", "C", "O", "CB") and rng.random() < rate:
+            dele = True
+        if not dele and mode == "backbone-atoms" and a.aname() in ("N", "CA", "C", "O", "OXT") and rng.random() < rate:
+            dele = True
+        if dele:
+            deleted.append((a.resn, a.aname(), a.tag))
+        else:
+            out.append(a)
     return out, deleted, "%s@%g" % (mode, rate)
 
 
@@ -311,7 +322,7 @@ def run_case(case, tier):
                      "msg": "single() raised %s after deleting %d atoms (%s)" % (run.exc, len(deleted), desc.get("how") or desc.get("deleted") or desc.get("mode")),
                      "detail": {"deleted": deleted[:12]}})
     else:
-        census_mon.check(run, text, viol, counts, classes)
+        census_mon.check(run, text, viol, counts, classes, allow_topup_extras=True)
     for w in (run.logs or []):
         m = w[2]
         if "Missing atoms or failed protonation" in m:
